@@ -45,6 +45,14 @@ claimed["C04"] = dict(
    ref="DESIGN.md 5/C04, engine E2",
    technique="static must-not-precede (CFG reachability with error-edge refinement), guard analysis on SSA values, loop-idiom classification on the typed AST (custom analyzer)")
 
+claimed["C17"] = dict(
+   text="A slice-ownership abstract interpretation of the 16 API entries decides, for all inputs, that no mutation sink (element store, copy, append to a "
+        "shortened slice, in-place sort/delete, read-into) is reachable with a backing array owned by the caller, that returned slices are fresh or the caller's "
+        "own, and that no caller-owned array is retained in the receiver. As a may-analysis over all paths this is a sufficient argument for the non-mutation "
+        "clause under the stated assumptions; one reviewed store of an equal value is exempted by construct.",
+   ref="DESIGN.md 5/C17, engine E3",
+   technique="static ownership/alias dataflow: context-sensitive abstract interpretation over go/ssa with stdlib mutation summaries (custom analyzer)")
+
 pending = {}  # id -> reason, for properties whose check is not built yet
 
 not_applicable = {
